@@ -10,7 +10,11 @@ use crate::rng::{hash_strs, Rng};
 use pkgsrc::Pattern;
 use std::cmp::Ordering;
 
-const PATS: [(&str, &[&str]); 8] = [
+const PATS: [(&str, &[&str]); 10] = [
+    // a base and the same base continued by a byte that sorts below '-'
+    // (gtk / gtk+): byte-wise order of the names is not order of the bases
+    ("*-[0-9]*", &["gtk", "gtk+", "gtk++", "gtk,", "gtk!", "g", "g++"]),
+    ("{gtk,gtk+,libsigc,libsigc++}-[0-9]*", &["gtk", "gtk+", "libsigc", "libsigc++"]),
     ("p-*", &["p"]),
     ("{foo,bar}-[0-9]*", &["foo", "bar", "baz"]),
     ("p>=1<3", &["p", "q"]),
@@ -268,8 +272,86 @@ fn check_list(ev: &mut Ev, pt: &str, names: &[String], splits: &[Vec<usize>]) ->
     Ok(())
 }
 
+/// The laws that need no reference order, for candidates outside the
+/// reference's domain (digit runs of 19 and more digits, saturated numbers
+/// next to negative modifiers): the result is None exactly when neither
+/// matches, otherwise one of the two and a match; it does not depend on the
+/// argument order; every left fold of the list gives the same winner.
+fn check_laws_only(ev: &mut Ev, pt: &str, names: &[String]) -> CaseResult {
+    let p = Pattern::new(pt).map_err(|e| format!("Pattern::new({pt:?}) failed: {e}"))?;
+    for x in names {
+        for y in names {
+            let got = p.best_match(x, y);
+            let rev = p.best_match(y, x);
+            ev.evals(2);
+            if got != rev {
+                return Err(format!("best_match({pt:?}, {x:?}, {y:?}) = {got:?} but with arguments swapped = {rev:?}").into());
+            }
+            let (mx, my) = (p.matches(x), p.matches(y));
+            match got {
+                None if !mx && !my => {}
+                Some(z) if (z == x.as_str() && mx) || (z == y.as_str() && my) => {}
+                _ => return Err(format!("best_match({pt:?}, {x:?}, {y:?}) = {got:?} (matches: {mx}, {my})").into()),
+            }
+        }
+    }
+    let items: Vec<Option<&str>> = names.iter().map(|s| Some(s.as_str())).collect();
+    let mut winner: Option<Option<&str>> = None;
+    for perm in permutations(names.len().min(5)) {
+        let mut acc: Option<&str> = combine(&p, items[perm[0]], None);
+        for &i in &perm[1..] {
+            acc = combine(&p, acc, combine(&p, items[i], None));
+        }
+        ev.eval();
+        ev.count("laws-only/left-folds");
+        match winner {
+            None => winner = Some(acc),
+            Some(w) if w == acc => {}
+            Some(w) => {
+                return Err(format!(
+                    "left fold of {:?} under {pt:?} = {acc:?}, another order of the same candidates gave {w:?}",
+                    perm.iter().map(|&i| &names[i]).collect::<Vec<_>>()
+                )
+                .into())
+            }
+        }
+    }
+    Ok(())
+}
+
 pub fn run(cx: &mut Cx) {
     cx.default_budget();
+    // (0) candidates outside the reference's domain: laws only
+    {
+        let mut r = cx.stream("laws-only");
+        let n = cx.per_shard(4, 60, 600, 6_000);
+        const EXTREME: [&str; 12] = [
+            "99999999999999999999", "9223372036854775807", "9223372036854775806", "9223372036854775805", "18446744073709551616",
+            "alpha", "beta", "rc", "pre", "0", "1", "",
+        ];
+        for _ in 0..n {
+            let prefix = match r.below(5) {
+                0 => String::new(),
+                1 => "1.".to_string(),
+                2 => "2.0.".to_string(),
+                3 => "1_".to_string(),
+                _ => format!("{}.", r.below(3)),
+            };
+            let suffix = *r.pick(&["", "nb1", ".1", "rc1"]);
+            let mut names: Vec<String> = (0..r.range(3, 5)).map(|_| format!("p-{prefix}{}{suffix}", r.pick(&EXTREME))).collect();
+            if r.chance(1, 3) {
+                names.push(format!("p-{}", gv::v(&mut r)));
+            }
+            let pt = *r.pick(&["p-*", "p>=0", "*", "p-[0-9a-z]*"]);
+            cx.check(
+                || format!("laws only: pattern {pt:?} candidates {names:?}"),
+                |ev| {
+                    ev.count("workload/laws-only");
+                    check_laws_only(ev, pt, &names)
+                },
+            );
+        }
+    }
     for k in ["matching-candidates/0", "matching-candidates/1", "matching-candidates/2", "matching-candidates/3", "lists-with-ties", "reductions/left-fold-permutations", "reductions/bracketings"] {
         cx.ev.require(k);
     }
